@@ -198,14 +198,27 @@ TypeOK == /\ DOMAIN st.modes \subseteq Ids
           /\ st.changed \in BOOLEAN /\ now \in 0..MaxNow
 AtMostOneNormal == AMO(st.modes)
 ActiveExistsOnceChanged == ActiveOK(st)
-ActiveNeverDeleted == \A x \in StepsHere : P_ActiveKept(x) /\ P_ActiveExists(x)
-ClearSelectsNormal == \A x \in StepsHere : P_Clear(x)
-StartStampedOnSwitch ==
-  \A x \in StepsHere : /\ P_Stamp(x)
-                        \* the specification's own reading of "iff": the same mode again keeps its time
-                        /\ x.op.op \in {"Change", "Clear"} /\ x.err = "OK" /\ x.post.active.id = x.pre.active.id
-                             => x.post.active.start = x.pre.active.start
-DeleteAbsent == \A x \in StepsHere : P_DeleteAbsent(x)
-RefusedIsNoop == \A x \in StepsHere : x.err # "OK" => x.post = x.pre
+\* the step clauses over a set S of observed steps
+ActiveNeverDeletedIn(S) == \A x \in S : P_ActiveKept(x) /\ P_ActiveExists(x)
+ClearSelectsNormalIn(S) == \A x \in S : P_Clear(x)
+StartStampedOnSwitchIn(S) ==
+  \A x \in S : /\ P_Stamp(x)
+                \* the specification's own reading of "iff": the same mode again keeps its time
+                /\ x.op.op \in {"Change", "Clear"} /\ x.err = "OK" /\ x.post.active.id = x.pre.active.id
+                     => x.post.active.start = x.pre.active.start
+DeleteAbsentIn(S) == \A x \in S : P_DeleteAbsent(x)
+RefusedIsNoopIn(S) == \A x \in S : x.err # "OK" => x.post = x.pre
+
+\* ... of every step the specification can take from the current state
+ActiveNeverDeleted == ActiveNeverDeletedIn(StepsHere)
+ClearSelectsNormal == ClearSelectsNormalIn(StepsHere)
+StartStampedOnSwitch == StartStampedOnSwitchIn(StepsHere)
+DeleteAbsent == DeleteAbsentIn(StepsHere)
+RefusedIsNoop == RefusedIsNoopIn(StepsHere)
+\* all of them with the steps computed once (what ElectricMC.cfg checks; the named ones above
+\* serve to show a single clause failing)
+StepClauses == LET S == StepsHere IN
+  /\ ActiveNeverDeletedIn(S) /\ ClearSelectsNormalIn(S) /\ StartStampedOnSwitchIn(S)
+  /\ DeleteAbsentIn(S) /\ RefusedIsNoopIn(S)
 NoDoorOut == \A x \in StepsHere : StepFails(x) = {}
 =============================================================================
